@@ -1219,6 +1219,10 @@ def drv_bridge(case):
     ba2 = pnd.boolean_ndarray(numpy.array(arrs, dtype=numpy.int64), variables=vs)
     ev["arrs"] = arrs
     ev["to_list_nested"] = [[tok(v.id) for v in l] for l in ba2.to_list()]
+    # a matrix without a single 1: still one (empty) list per row
+    zarrs = [[0] * len(vs), [0] * len(vs)]
+    ev["zarrs"] = zarrs
+    ev["to_list_zero"] = [[tok(v.id) for v in l] for l in pnd.boolean_ndarray(numpy.array(zarrs, dtype=numpy.int64), variables=vs).to_list()]
     out.append(ev)
     # A / b split of a polyhedron over these variables (first one plays the support column)
     if len(vs) >= 2:
